@@ -29,9 +29,9 @@ def _get_path(c):
     c.raises("RequestedInvalidSector",
              "current_sector >= len(self.sector_links) and "
              "(len(path) == 0 and current_sector == starting_sector or "
-             " len(path) > 0 and current_sector == self.sector_links[path[len(path)-1]].next)")
+             " len(path) > 0 and current_sector == self.sector_links[path[len(path)-1]].next)", at_raise=True)
     c.raises("InvalidFatDefinition",
-             "len(path) >= self.size and forall(0, len(path), lambda k: not self.sector_links[path[k]].end)")
+             "len(path) >= self.size and forall(0, len(path), lambda k: not self.sector_links[path[k]].end)", at_raise=True)
     c.modifies()
     lp = c.loop(0)
     lp.invariant(
@@ -107,4 +107,58 @@ def _small_get_path(tier, seed):
 CONCRETE["smpl_extract.util.fat:FileAllocationTable.get_path"] = {
     "build": _build_get_path, "small": _small_get_path, "oracle": _oracle_get_path,
     "bound": "all link tables of <= 3 (quick) / 4 (thorough) entries, next in 0..n (n = out of range), both end flags, every start 0..n",
+}
+
+
+@contract("smpl_extract.util.fat:add_to_sector_links", props=["C07", "C13", "C01", "C02"])
+def _add_links(c):
+    c.param("links_arg", ("list", "int"))
+    c.param("sector_links", LINKS)
+    c.value_class("SectorLink", {"next": "int", "end": "bool"})
+    c.requires("len(links_arg) >= 1", "non-empty")
+    c.requires("forall(0, len(links_arg), lambda k: links_arg[k] >= 0)", "links-unsigned")
+    c.define("pairwise_distinct", ["xs"], "forall(0, len(xs), lambda a: forall(0, len(xs), lambda b: implies(a < b, xs[a] != xs[b])))")
+    c.requires("pairwise_distinct(links_arg)", "links-distinct")
+    c.ensures("len(sector_links) == old(len(sector_links))", "table-length-kept")
+    c.ensures("forall(0, len(links_arg) - 1, lambda k: sector_links[links_arg[k]].next == links_arg[k+1] "
+              "and not sector_links[links_arg[k]].end)", "links-installed")
+    c.ensures("sector_links[links_arg[len(links_arg)-1]].end", "last-is-end")
+    c.ensures("forall(0, len(sector_links), lambda s: implies(forall(0, len(links_arg), lambda k: links_arg[k] != s), "
+              "sector_links[s].next == old(sector_links)[s].next and sector_links[s].end == old(sector_links)[s].end))",
+              "frame.other-entries-untouched")
+    c.raises("InvalidFatDefinition", "exists(0, len(links_arg), lambda k: links_arg[k] >= len(sector_links))", iff=True)
+    c.modifies("sector_links")
+    lp = c.loop(0)
+    lp.invariant(
+        "1 <= _i0 and _i0 <= len(links_arg)",
+        "prev_link == links_arg[_i0 - 1]",
+        "len(sector_links) == old(len(sector_links))",
+        "forall(0, _i0 - 1, lambda k: sector_links[links_arg[k]].next == links_arg[k+1] and not sector_links[links_arg[k]].end)",
+        "forall(0, _i0 - 1, lambda k: links_arg[k] < len(sector_links))",
+        "forall(0, len(sector_links), lambda s: implies(forall(0, _i0 - 1, lambda k: links_arg[k] != s), "
+        "sector_links[s].next == old(sector_links)[s].next and sector_links[s].end == old(sector_links)[s].end))",
+    )
+
+
+def _build_add_links(inputs):
+    from smpl_extract.util.fat import add_to_sector_links
+    T = _mk_links(inputs["sector_links"])
+    links = list(inputs["links_arg"])
+    return {"call": add_to_sector_links, "args": [links, T],
+            "env": {"links_arg": links, "sector_links": T}}
+
+
+def _small_add_links(tier, seed):
+    import itertools
+    maxn = 3 if tier == "quick" else 4
+    for n in range(1, maxn + 1):
+        base = [{"next": 7, "end": (k % 2 == 0)} for k in range(n)]
+        for m in range(1, n + 2):
+            for links in itertools.permutations(range(n + 1), m):
+                yield {"links_arg": list(links), "sector_links": base}
+
+
+CONCRETE["smpl_extract.util.fat:add_to_sector_links"] = {
+    "build": _build_add_links, "small": _small_add_links,
+    "bound": "all duplicate-free link lists over 0..n (n out of range) for tables of <= 3/4 entries",
 }
